@@ -1,17 +1,17 @@
 CONSTANTS
   Q = 5
   Scheme = "schnorr"
-  MSPs <- AllMSPs
-  ColS = {0,2,3}
+  MSPs <- PairMSPs
+  ColS = {0,1,2,3,4}
   SecS = {1,2,3,4}
-  SeedS = {0,1,3}
+  SeedS = {0,1,2,3,4}
   KS = {0,1,2,3,4}
   PhiS = {1,3}
   ChiS = {0,2,4}
   CS = {0,3}
   MsgS = {0,1,2,3,4}
   XTab <- XTab5
-  MaxQuorum = 3
+  MaxQuorum = 2
   PaillierN = 1
   Lifts = {0}
   RhoS = {0}
